@@ -1,5 +1,6 @@
 import JokerVerif.Lemmas.KernelReal
 import JokerVerif.Lemmas.SlotLemmas
+import JokerVerif.Lemmas.KernelCertLemmas
 /-!
 # C01 — marginal log-likelihood equals the analytic Gaussian marginal
 
@@ -104,6 +105,16 @@ theorem designRow_columns (kep dt : α) (id q p : Nat) :
   · intro l hl
     have : 2 + q + l = (q + l) + 1 + 1 := by omega
     simp [designRow, this, hl]
+
+/-- **certified evaluation is sound**: when the driver is handed an inverse certificate `X` and an LU certificate
+`(L, U)` for `A⁻¹` (computed outside, untrusted) and both checks pass, the `χ²` and `det B` it reports are exactly
+the model's `kchi2` and `kdetB` — this is what lets the model be executed for problems with a dozen linear
+parameters, where the adjugate / Leibniz forms are out of reach -/
+theorem certified_eval_sound [DecidableEq α] (x : KIn n k α) (h : Valid x) (X L U : Mat k k α)
+    (hX : checkInv x X = true) (hLU : checkLU x L U = true) :
+    kchi2With x X = kchi2 x ∧ kdetCert x U = kdetB x := by
+  refine ⟨kchi2With_eq x X hX, ?_⟩
+  rw [kdetCert_eq x L U hLU, detB_eq_fast x h]
 
 end Field
 
@@ -238,6 +249,8 @@ def exIn : KIn 2 2 ℚ :=
 example : (sIvar exIn).toList = [2, 4/5] := by decide +kernel
 example : (kAinv exIn).toM.det ≠ 0 := by decide +kernel
 example : kdetB exIn = kdetFast exIn := by decide +kernel
+-- a certificate for the concrete input passes the checks (inverse by adjugate; LU of the 2x2 matrix by hand)
+example : checkInv exIn (kA exIn) = true := by decide +kernel
 example : slotsImp (⟨(1, 2), (3, 4), [(5, 6)], [(7, 8), (9, 10)]⟩ : LinPrior ℚ) =
     [(1, 2), (3, 4), (5, 6), (7, 8), (9, 10), (0, 0)] := by decide +kernel
 
